@@ -472,7 +472,7 @@ fn terminator(rng: &mut Rng, s: &mut Sec, ctx: &Ctx2, early: bool) {
     }
 }
 
-fn encode(types: &[(u8, u8, u16)], codes: &[Vec<u8>], subs: &[Vec<u8>], data: &[u8], declared_data: u16) -> Vec<u8> {
+pub fn encode(types: &[(u8, u8, u16)], codes: &[Vec<u8>], subs: &[Vec<u8>], data: &[u8], declared_data: u16) -> Vec<u8> {
     let mut b = vec![0xef, 0x00, 0x01, 0x01];
     b.extend_from_slice(&((types.len() * 4) as u16).to_be_bytes());
     b.push(0x02);
